@@ -94,6 +94,13 @@ func (in *inst) Ops() []string {
 			}
 		}
 	}
+	// invalid public keys: the operation must fail with the encryption tag and change nothing
+	for n := 0; n < 3; n++ {
+		for o := 0; o < 3; o++ {
+			out = append(out, fmt.Sprintf("addbad %d %d", n, o))
+		}
+		out = append(out, fmt.Sprintf("initbad %d", n))
+	}
 	out = append(out, "roundtrip")
 	return out
 }
@@ -214,6 +221,39 @@ func (in *inst) Apply(op string) string {
 		}
 		if err == nil {
 			in.m.live[a] = b
+		}
+	case strings.HasPrefix(op, "addbad"):
+		fmt.Sscanf(op, "addbad %d %d", &a, &c)
+		want := "encrypt"
+		switch {
+		case in.m.live[a] >= 0:
+			want = "slotexists"
+		case !in.m.init:
+			want = "notinit"
+		case in.m.live[c] < 0:
+			want = "slotnotfound"
+		}
+		key := "not a pgp public key"
+		if want == "encrypt" {
+			key = keys[in.m.live[c]].pub[:40] // truncated armor
+		}
+		priv := keys[0].priv
+		if in.m.live[c] >= 0 {
+			priv = keys[in.m.live[c]].priv
+		}
+		err := in.ks.AddKeySlot(slots[a], key, slots[c], priv)
+		if tagOf(err) != want {
+			return fmt.Sprintf("AddKeySlot(new %d with an unparsable public key via %d) = %s, model says %s (state %s)", a, c, tagOf(err), want, in.m.canon())
+		}
+	case strings.HasPrefix(op, "initbad"):
+		fmt.Sscanf(op, "initbad %d", &a)
+		err := in.ks.Initialize(master, slots[a], "not a pgp public key")
+		want := "encrypt"
+		if in.m.init {
+			want = "alreadyinit"
+		}
+		if tagOf(err) != want {
+			return fmt.Sprintf("Initialize with an unparsable public key = %s, model says %s", tagOf(err), want)
 		}
 	case op == "roundtrip":
 		data, err := in.ks.MarshalBinary()
